@@ -38,6 +38,8 @@ var names = [][]byte{[]byte("a"), []byte("b"), []byte("c"), []byte("other"), []b
 
 var smallSelf = []uint64{0, 0, 0, 1, 1, 2, 2, 3, 5}
 
+var hugeSelf = []uint64{0, 0, 1 << 31, 1 << 31, 1 << 32, 1<<32 - 1, 3 << 31, 1 << 33, 5, 1 << 36, 1 << 40, 1<<32 + 7}
+
 type genCtx struct {
 	r        *rand.Rand
 	left     int // node budget of the generator
@@ -143,6 +145,10 @@ func gen(r *rand.Rand, idx int, tier string) Input {
 		default:
 			in.Kind = "inconsistent"
 		}
+	case 5: // bytes-unit profiles: totals in 2^31 .. 2^40, exact multiples of 2^32 among them (sums of folded
+		// children cross 2^32)
+		g.selfs = hugeSelf
+		in.Kind = "huge"
 	case 6: // leaves only at self 0/1: many zero-valued frames
 		g.selfs = []uint64{0, 0, 0, 1}
 		in.Kind = "zeros"
